@@ -2730,3 +2730,80 @@ func ruleAmountExact(c *Ctx) {
 	}
 	c.Floor("amounts handed to the balance updaters", n, 4)
 }
+
+// ---------------------------------------------------------------------------
+// page-tail-bound (C02): HeaderHashes keeps the header hashes in pages of headerBatchCount: `storedHeaderCount` hashes
+// are in complete pages in the database, the rest - fewer than one page - in `latest`; a page is written exactly
+// when `latest` reaches a full page (tryStoreBatch). HeaderHashes.init recomputes storedHeaderCount from the persisted
+// header height h; with h+1 hashes in all, the value has to be a multiple of the page size with
+// 0 <= (h+1) - storedHeaderCount < page size. The assignment is folded (go/constant arithmetic over the syntax tree,
+// nothing is executed) for heights around the first three page borders. An off-by-one here leaves a full page in
+// `latest` after a restart at a border: the writer's `len == page` test then never fires again and the node stops
+// storing pages for good.
+func rulePageTailBound(c *Ctx) {
+	fd := c.P.Func("pkg/core", "HeaderHashes", "init")
+	if fd == nil {
+		c.Lost("page-tail-bound.anchor", "HeaderHashes.init not found")
+		return
+	}
+	pk := c.P.Pkg("pkg/core")
+	bc, ok := pk.Types.Scope().Lookup("headerBatchCount").(*types.Const)
+	if !ok {
+		c.Lost("page-tail-bound.const", "headerBatchCount not found")
+		return
+	}
+	B, _ := constant.Int64Val(constant.ToInt(bc.Val()))
+	f := c.P.NewFuncCFG(fd)
+	info := fd.Pkg.TypesInfo
+	// the height variable: first result of GetCurrentHeaderHeight
+	var hObj types.Object
+	ast.Inspect(fd.Decl.Body, func(x ast.Node) bool {
+		as, ok := x.(*ast.AssignStmt)
+		if !ok || len(as.Rhs) != 1 || len(as.Lhs) < 1 {
+			return true
+		}
+		if call, ok := ast.Unparen(as.Rhs[0]).(*ast.CallExpr); ok && f.calleeSym(call) == "pkg/core/dao.(*Simple).GetCurrentHeaderHeight" {
+			if id, ok := as.Lhs[0].(*ast.Ident); ok {
+				hObj = info.ObjectOf(id)
+			}
+		}
+		return true
+	})
+	if hObj == nil {
+		c.Lost("page-tail-bound.height", "init no longer reads the persisted header height")
+		return
+	}
+	n := 0
+	for _, w := range f.WriteSites("pkg/core#storedHeaderCount") {
+		as, ok := w.node.(*ast.AssignStmt)
+		if !ok || len(as.Rhs) != 1 {
+			continue
+		}
+		n++
+		key := fmt.Sprintf("page-tail-bound.init#%d", n)
+		bad := ""
+		for _, h := range []int64{0, 1, B - 2, B - 1, B, B + 1, 2*B - 2, 2*B - 1, 2 * B, 3*B - 1, 3 * B} {
+			m := &miniEval{info: info, env: map[types.Object]constant.Value{hObj: constant.MakeInt64(h)}, tr: &miniTrace{stores: map[int64]constant.Value{}}}
+			v := m.eval(as.Rhs[0])
+			if v == nil {
+				bad = "not foldable"
+				break
+			}
+			S, _ := constant.Int64Val(constant.ToInt(v))
+			tail := h + 1 - S
+			if S%B != 0 || tail < 0 || tail >= B {
+				bad = fmt.Sprintf("at persisted header height %d (%d hashes) it gives %d, leaving %d hashes for `latest`", h, h+1, S, tail)
+				break
+			}
+		}
+		switch {
+		case bad == "not foldable":
+			c.Unclassified(key, c.P.Pos(as.Pos()), "the page count is not a constant-foldable function of the persisted height")
+		case bad != "":
+			c.Fail(key, c.P.Pos(as.Pos()), fmt.Sprintf("HeaderHashes.init computes the number of hashes stored in complete pages wrongly: %s - a full page (or a negative tail) in memory; tryStoreBatch stores a page only when `latest` holds exactly one page, so after this restart no page is ever stored again", bad))
+		default:
+			c.OK(key, c.P.Pos(as.Pos()), "storedHeaderCount is the number of hashes rounded down to whole pages: the in-memory tail is shorter than a page at every height")
+		}
+	}
+	c.Floor("assignments of storedHeaderCount in init", n, 1)
+}
